@@ -4,8 +4,9 @@
    correspondence check props/c02.py (per-layer over the probe backend for N, M in 1..4
    independently; sampled stacks from the grammar). *)
 From Coq Require Import ZArith List Bool.
-From Covfie Require Import Layout Stack StackProofs PackLang Refine_Packs.
-From Covfie.gen Require Import Gen_Packs.
+From Covfie Require AlgebraCore.
+From Covfie Require Import Layout Stack StackProofs PackLang Refine_Packs MatLang Refine_Algebra LinLang Refine_Linear.
+From Covfie.gen Require Import Gen_Packs Gen_Linear.
 Import ListNotations.
 Local Open Scope Z_scope.
 
@@ -80,7 +81,22 @@ Theorem C02_cast_is_the_source : forall ops from to (b : query) c tr v, b c = So
   eval_at (c_env c) (fun _ _ => None) (cast_fn ops from to) b gen_covariant_cast_at gen_covariant_cast_elem (seq 0 (length v)) = cast_at ops from to b c.
 Proof. exact cast_layer_refines. Qed.
 
+(* the arithmetic layers, from the source of this run: the affine layer hands its backend A.c + t as AlgebraCore
+   computes it (which is what the model layer affine_at does, C02_affine), and every branch of the linear
+   layer issues the model layer's neighbour queries and combines the answers as the model does *)
+Theorem C02_affine_layer_is_the_source : forall (T : Type) (zero one : T) (add mul : T -> T -> T) (n : nat) (A C : nat -> nat -> T),
+  (1 <= n <= 4)%nat ->
+  tabv n (g_layer T zero one add mul n A C) = AlgebraCore.affine_apply zero one add mul (tab n (S n) A) (tabv n C).
+Proof. exact affine_layer_refines. Qed.
+Theorem C02_linear_layer_is_the_source :
+  (forall ops tc tidx tv vals q x0, code ops tc tidx tv vals q lin_branch_1 [x0] = model ops tc tidx tv vals q true [x0]) /\
+  (forall ops tc tidx tv vals q x0 x1, code ops tc tidx tv vals q lin_branch_2 [x0; x1] = model ops tc tidx tv vals q true [x0; x1]) /\
+  (forall ops tc tidx tv vals q x0 x1 x2, code ops tc tidx tv vals q lin_branch_3 [x0; x1; x2] = model ops tc tidx tv vals q true [x0; x1; x2]) /\
+  (forall ops tc tidx tv vals q x0 x1 x2 x3, code ops tc tidx tv vals q lin_branch_generic [x0; x1; x2; x3] = model ops tc tidx tv vals q false [x0; x1; x2; x3]).
+Proof. exact (conj branch_1_refines (conj branch_2_refines (conj branch_3_refines branch_generic_refines_4))). Qed.
+
 Print Assumptions C02_eval_cons.
+Print Assumptions C02_linear_layer_is_the_source.
 Print Assumptions C02_clamp_is_the_source.
 Print Assumptions C02_cast_is_the_source.
 Print Assumptions C02_layer_parametric.
